@@ -17,7 +17,7 @@ def case(d):
     p = prog.gen_h(d, {"small": True}) if ftype == "h" else prog.gen_c(d, {"small": True})
     fields = header42.fields(d, p.name if d.bool(0.6) else None)
     body_lines = [ln.text for ln in p.lines[12:]]
-    glue = d.weighted([(6, "blank"), (2, "comment-below"), (1, "comment-glued")])
+    glue = d.weighted([(6, "blank"), (2, "comment-below"), (1, "comment-glued"), (1, "line-comment-glued"), (1, "line-comment-below")])
     nmut = d.int(0, 10 ** 6)
     return p.name, fields, body_lines, glue, nmut
 
@@ -28,6 +28,10 @@ def assemble(hdr_lines, body_lines, glue):
         mid = ["", "/* about this file */"]
     elif glue == "comment-glued":
         mid = ["/* about this file */", ""]
+    elif glue == "line-comment-glued":
+        mid = ["// about this file", ""]
+    elif glue == "line-comment-below":
+        mid = ["", "// about this file"]
     return "\n".join(hdr_lines + mid + body_lines) + "\n"
 
 
@@ -56,7 +60,7 @@ def check(camp, name, fields, body_lines, glue, mids):
         camp.fail("C13|wellformed|header-only", "a file holding only a well-formed header reported INVALID_HEADER %d time(s)" % n, {"name": name, "text": stub, "expect": 0})
     for mid in mids:
         new = header42.mutate(hdr, mid, body_first_line="int\tft_before(void);")
-        g = "blank" if glue == "comment-glued" and mid in ("H1",) else glue
+        g = "blank" if glue in ("comment-glued", "line-comment-glued") and mid in ("H1",) else glue
         if mid == "H1":
             t = "\n".join(body_lines) + "\n"
         else:
